@@ -92,8 +92,30 @@ def race_stage(ctx):
     return r
 
 
+def extra_stage(ctx):
+    """ONCE among the arguments of a qualified call; immediate functions registered after the first query."""
+    res = {"name": "once-in-arguments+late-immediate", "ok": False, "violations": [], "coverage": {}}
+    d = os.path.join(ctx["rundir"], "c14extra")
+    rc, out = ctx["run"]([ctx["exe"], "aux", "c14extra", "-seed", str(ctx["seed"]), "-out", d], cwd=ctx["rundir"], env=ctx["goenv"], timeout=300)
+    p = os.path.join(d, "c14extra.json")
+    if rc != 0 or not os.path.exists(p):
+        res["detail"] = "driver failed: " + out[-300:]
+        res["broken"] = "stage:once-in-arguments+late-immediate did not complete: " + out[-200:].replace("\n", " ")
+        return res
+    m = json.load(open(p))
+    fails = m.get("failures") or []
+    res["coverage"] = {"cases": m.get("checks", 0), "rule": "ONCE.f among the arguments of ASYNC / SPINASYNC / SCOPED / plain calls over 5 rows (one invocation, one value); 4 immediate functions registered after queries ran x 5 qualifier spellings (all rejected, never invoked)"}
+    res["ok"] = not fails
+    res["detail"] = "%d of %d observations fail" % (len(fails), m.get("checks", 0))
+    for i, f in enumerate(fails[:3]):
+        rp = os.path.join(ctx["root"], "replays", "C14-%s-%d-extra-%d.json" % (ctx["tier"], ctx["seed"], i))
+        json.dump({"property": "C14", "failure": f, "replay": "vharness aux c14extra -seed %d -out <dir>" % ctx["seed"]}, open(rp, "w"), indent=1)
+        res["violations"].append((rp, ""))
+    return res
+
+
 def install(CONFIG, EXTRA_TB, ASSUME):
-    CONFIG["C14"] = {"shard": 120, "structural": structural, "stages": [race_stage], "harness": True}
+    CONFIG["C14"] = {"shard": 120, "structural": structural, "stages": [race_stage, extra_stage], "harness": True}
     EXTRA_TB["C14"] = [
         "Model/Strategies.v: the goroutine that calls Exec is modelled as a deterministic list of atomic actions (synchronous call, go+wg.Add, forwarder) computed by `compile` from FunExpr/SelectExpr/exec; this rests on main reading nothing a worker writes before wg.Wait(), which the -race stage of this check watches on the real code; Go's memory model (happens-before of wg.Done -> wg.Wait, go statement) is assumed, interleaving semantics = sequential consistency of the atomic steps",
         "user functions are a pure oracle name -> args -> (value | error | panic); `await`, GLOBAL and qualified calls nested inside other expressions are outside the model; sqlparser maps `ASYNC.F(x)` to FuncExpr{Qualifier, Name} (observed on every case)",
